@@ -145,7 +145,10 @@ class Lit:
             if n.id in self.env:
                 return self.env[n.id]
             if self.opaque is not None and n.id in getattr(self.opaque, 'override_names', ()):
-                return self._opaque(n)
+                try:
+                    return self._opaque(n)
+                except NotLiteral:
+                    pass          # overridden in another module only: resolve normally here
             m, node = self.repo.resolve(self.modname, n.id)
             if node is not None:
                 return Lit(self.repo, m.name, opaque=self.opaque).ev(node)
@@ -279,7 +282,7 @@ class Lit:
                     base = None
                 if isinstance(base, (list, dict, set, bytearray)) or (getattr(base, '_sa_fold_ok', False) and hasattr(base, n.func.attr)):
                     args = self._seq(n.args)
-                    return getattr(base, n.func.attr)(*args)
+                    return getattr(base, n.func.attr)(*args, **self._kw(n.keywords))
             if isinstance(n.func, ast.Attribute):
                 # methods of model objects supplied by the checker (not repository instances), of re.Match and of named tuples
                 try:
